@@ -312,6 +312,7 @@ where
         Ok(Err(e)) => tag_err(e, &mut out),
         Err(()) => out.push(2),
     }
+    out.push(vh::nodes::OUTSIDE.with(|c| c.get()));
     out
 }
 
